@@ -1027,7 +1027,22 @@ def s_same_crs(draw):
     src = draw(crs_tags(allow_none=False))
     dst = draw(crs_tags(labels=[src["label"]], allow_none=False))
     G, _ = _ll_geom(draw, src["label"], CRS_POOL[src["label"]][1])
-    return {"src": src, "dst": dst, "geom_lonlat": G, "phi": _res_arg(draw), "kw": draw(_B)}
+    return {"src": src, "dst": dst, "geom_lonlat": G, "phi": _res_arg(draw), "kw": draw(_B),
+            # optional flags of to_crs and an input that is not OGC-valid (bow-tie / spike / hole outside the shell):
+            # "unchanged" means unchanged, there is nothing to fix when nothing was projected
+            "opts": draw(st.sampled_from([{}, {}, {"check_and_fix": True}, {"wrapdateline": True}, {"check_and_fix": True, "wrapdateline": True}])),
+            "invalid": draw(_S(None, None, None, "bowtie", "spike", "hole_outside"))}
+
+
+def _invalid_polygon(kind, x0, y0, d):
+    import shapely.geometry as sg
+
+    if kind == "bowtie":
+        return sg.Polygon([(x0, y0), (x0 + d, y0 + d), (x0 + d, y0), (x0, y0 + d), (x0, y0)])
+    if kind == "spike":
+        return sg.Polygon([(x0, y0), (x0 + d, y0), (x0 + 2 * d, y0), (x0 + d, y0), (x0 + d, y0 + d), (x0, y0)])
+    return sg.Polygon([(x0, y0), (x0 + d, y0), (x0 + d, y0 + d), (x0, y0 + d), (x0, y0)],
+                      [[(x0 + 2 * d, y0), (x0 + 3 * d, y0), (x0 + 3 * d, y0 + d), (x0 + 2 * d, y0)]])
 
 
 def _res_value(phi, G):
@@ -1053,9 +1068,23 @@ def _call_to_crs(g, spec, res, kw):
 def o_same_crs(case, T):
     G = _src_geom(case)
     g = _mk_geometry(G, case["src"])
+    if case.get("invalid"):
+        from odc.geo.geom import Geometry
+
+        ch = list(g_chains(shp_to_g(g.geom)))
+        x0, y0 = ch[0][1][0][:2] if ch and ch[0][1] else (0.0, 0.0)
+        d = 1e-3 if CRS_POOL[case["src"]["label"]][0] == "geographic" else 100.0
+        g = Geometry(_invalid_polygon(case["invalid"], float(x0), float(y0), d), mk_crs_spec(case["src"]))
+        G = shp_to_g(g.geom)
+        T.cls("invalid_input:" + case["invalid"])
     before = shp_to_g(g.geom)
     res = _res_value(case["phi"], G)
-    out = _call_to_crs(g, mk_crs_spec(case["dst"]), res, case["kw"])
+    opts = case.get("opts") or {}
+    if opts:
+        out = g.to_crs(mk_crs_spec(case["dst"]), resolution=res, **opts)
+        T.cls("opts:" + "+".join(sorted(opts)))
+    else:
+        out = _call_to_crs(g, mk_crs_spec(case["dst"]), res, case["kw"])
     require(out is g, "to_crs to the same CRS (%s: %s -> %s, resolution=%r) did not return the input object", case["src"]["label"], case["src"]["spell"], case["dst"]["spell"], res)
     require(shp_to_g(out.geom) == before and _crs_is(out.crs, case["src"]["label"]), "to_crs to the same CRS changed the geometry")
     T.cls("spell:same" if case["src"]["spell"] == case["dst"]["spell"] else "spell:different")
